@@ -339,6 +339,8 @@ class Evaluator:
                     parts.append(Const(fn(left.v, right.v)))
                 except Exception:
                     parts.append(App(name, (left, right), e))
+            elif name in ("in", "not in") and isinstance(left, Const):
+                parts.append(self._membership(name, left, right, e))
             else:
                 parts.append(App(name, (left, right), e))
             left = right
@@ -347,6 +349,26 @@ class Evaluator:
         if all(isinstance(p, Const) for p in parts):
             return Const(all(p.v for p in parts))
         return App("and", parts, e)
+
+    def _plain_literal_dict(self, t) -> bool:
+        """A dict literal written with constant keys only (no ** spread)."""
+        if isinstance(t, Const) or not isinstance(t, App):
+            return False
+        dp = dict_pairs(t)
+        return dp is not None and len(dp) > 0 and all(isinstance(k, Const) for k, _ in dp)
+
+    def _membership(self, name, key, cont, node, depth=0):
+        """`k in c` for a constant key: decided for a literal dict / list with constant keys, distributed over `a if g else b`."""
+        if isinstance(cont, App) and cont.op == "phi" and depth < 4:
+            g, a, b = cont.args
+            if self._plain_literal_dict(a) or self._plain_literal_dict(b):
+                return phi(g, self._membership(name, key, a, node, depth + 1), self._membership(name, key, b, node, depth + 1), node)
+        dp = dict_pairs(cont)
+        keys = [k for k, _ in dp] if dp is not None and not isinstance(cont, Const) else None
+        if keys is not None and all(isinstance(k, Const) for k in keys):
+            found = any(k == key for k in keys)
+            return Const(found if name == "in" else not found)
+        return App(name, (key, cont), node)
 
     def e_IfExp(self, e, st, fr):
         g = self.eval_expr(e.test, st, fr)
@@ -391,7 +413,11 @@ class Evaluator:
         idx = self.eval_expr(e.slice, st, fr)
         return self.subscript(base, idx, e)
 
-    def subscript(self, base, idx, node=None):
+    def subscript(self, base, idx, node=None, depth=0):
+        if isinstance(base, App) and base.op == "phi" and depth < 4 and isinstance(idx, Const) and (
+                self._plain_literal_dict(base.args[1]) or self._plain_literal_dict(base.args[2])):
+            # (a if g else {...})[k]
+            return phi(base.args[0], self.subscript(base.args[1], idx, node, depth + 1), self.subscript(base.args[2], idx, node, depth + 1), node)
         if isinstance(base, Const) and isinstance(idx, Const):
             try:
                 return Const(base.v[idx.v])
